@@ -22,7 +22,9 @@ from vlib import corpus, pool
 from vlib.gen import isolation_docs as iso
 
 LEVEL = "exploration"
-OBSERVERS = ["full_text", "units", "unit_text", "unit_images", "unit_tables", "unit_meta", "images", "image_bytes", "image_meta", "tables", "metadata", "to_json", "unit_to_json"]
+OBSERVERS = ["full_text", "units", "unit_text", "unit_images", "unit_tables", "unit_meta", "images", "image_bytes", "image_meta", "tables", "metadata", "to_json", "unit_to_json",
+             "other_accessors", "other_accessors"]
+_COVERED = {"get_full_text", "iterate_units", "iterate_images", "iterate_tables", "get_metadata", "to_json"}
 
 
 def work_init(init):
@@ -88,6 +90,32 @@ def _observe(r, name):
         return r.to_json()
     if name == "unit_to_json":
         return [u.to_json() for u in r.iterate_units()]
+    if name == "other_accessors":
+        # every further public read accessor the result type offers (iterate_* / get_* without required arguments), whatever it is called:
+        # e.g. the attachments of a mail extracted at call time.  Generators are consumed; nested results are serialised.
+        import inspect
+        out = {}
+        for attr in sorted(dir(type(r))):
+            if attr in _COVERED or not attr.startswith(("iterate_", "get_")):
+                continue
+            f = getattr(r, attr, None)
+            if not callable(f):
+                continue
+            try:
+                sig = inspect.signature(f)
+            except (TypeError, ValueError):
+                continue
+            if any(p.default is p.empty and p.kind in (p.POSITIONAL_ONLY, p.POSITIONAL_OR_KEYWORD, p.KEYWORD_ONLY) for p in sig.parameters.values()):
+                continue
+            v = f()
+            if inspect.isgenerator(v) or (hasattr(v, "__iter__") and not isinstance(v, (str, bytes, dict, list, tuple))):
+                v = list(v)
+            if isinstance(v, (list, tuple)):
+                v = [x.to_json() if hasattr(x, "to_json") else (x.get_bytes().read() if hasattr(x, "get_bytes") else repr(x)) for x in v]
+            elif hasattr(v, "to_json"):
+                v = v.to_json()
+            out[attr] = v
+        return out
     raise ValueError(name)
 
 
